@@ -42,7 +42,7 @@ SPEC = {
     "props": ["props/C39.v"],
     "corr": ["corr/Relay_corr.v"],
     "build_comp": "relay",
-    "comps": [{"comp": "relay", "n_quick": 90, "n_thorough": 2500}],
+    "comps": [{"comp": "relay", "n_quick": 80, "n_thorough": 1200}],
     "trusted": ["gen/Tab_Relay.v is produced by driving the real relayManager.HandleControlMsg over every abstract row, >= 3 concrete "
                 "situations each (translator by exhaustive evaluation); soundness of the abstraction is sampled, not proved",
                 "model/Relay.v qrow_of/xrow_of, step_request/step_response (application of the tabulated action), forward, add_tunnel, "
